@@ -255,7 +255,8 @@ pub fn main(tier: Tier, replay: Option<String>) -> i32 {
     spec.system.push(Row::new("a!", 5, 5, 1000, P_SYM));
     spec.system.push(Row::new("!?", 5, 5, 1000, P_SYM));
     let world = Arc::new(World::build(spec).expect("W-sent"));
-    let alpha = syms(&["あ", "。", "と"], &["！", ".", "．", "(", ")", "「", "」", "1", "a", " ", "<br>", "・", ",", "モー娘。", "な。な", "𠮷", "な", "？", "!", "?", "\\"]);
+    let alpha = syms(&["あ", "。", "と"], &["！", ".", "．", "(", ")", "「", "」", "1", "a", " ", "<br>", "・", ",", "モー娘。", "な。な", "𠮷", "な", "？", "!", "?", "\\", "\u{20028}", "\u{2300d}"]);
+    // (the last two are astral characters whose low sixteen bits are those of `(` and `」`)
     let bounds = tier.pick(TreeBounds { full_len: 3, ext_len: 6, max_special: 2 }, TreeBounds { full_len: 4, ext_len: 7, max_special: 2 });
     let b = json!({"tree": bounds.to_json(), "limits": [1, 2, 3, 5, 4096], "checker": ["none", "dictionary"]});
     let mut jobs = vec![job(SentSpace { world, alpha: alpha.clone(), bounds: bounds.clone(), limits: vec![1, 2, 3, 5, 4096] }, Strategy::Dfs, Some(tier.pick(50, 3000)), b.clone())];
